@@ -221,6 +221,85 @@ def upsert_siblings(chk, w, fx):
                      "Orchard-protocol upsert sets `%s = %s`" % (col, a[col], col, o[col]), sa[0].span.loc())
 
 
+def _disjuncts(pred):
+    """top-level OR-disjuncts of a SQL predicate, comments and whitespace removed"""
+    pred = re.sub(r"--[^\n]*", " ", pred)
+    out, depth, cur = [], 0, ""
+    toks = re.split(r"(\(|\)|\bOR\b)", pred)
+    for t in toks:
+        if t == "(":
+            depth += 1
+        elif t == ")":
+            depth -= 1
+        if t == "OR" and depth == 0:
+            out.append(cur)
+            cur = ""
+        else:
+            cur += t
+    out.append(cur)
+    return [re.sub(r"\s+", " ", d).strip() for d in out if d.strip()]
+
+
+def _atom_kind(d):
+    """normal form of a disjunct about a spending transaction: ('mined',) | ('noexpiry',) |
+    ('height-dependent', text) | ('other', text). `mined_height < :target_height` is, for every later
+    target height, the same fact as `mined_height IS NOT NULL`."""
+    x = re.sub(r"\{?\b\w+\}?\.(\w+)", r"\1", d.strip("() "))
+    if re.match(r"^mined_height IS NOT NULL$", x) or re.match(r"^mined_height < :target_height$", x):
+        return ("mined",)
+    if re.match(r"^expiry_height = 0$", x):
+        return ("noexpiry",)
+    if ":target_height" in x or ":anchor_height" in x:
+        return ("height-dependent", x)
+    return ("other", x)
+
+
+def definitely_spent(chk, w, fx):
+    """The scanner stops watching for a note's nullifier only when the note's spend is PERMANENT. The
+    wallet's own notion of an effective spend is tx_unexpired_condition, some of whose disjuncts
+    lapse as the target height grows (an unmined spend that may still expire). So every disjunct of
+    the spent-predicate of get_nullifiers(Unspent) must be one of the disjuncts of
+    tx_unexpired_condition that do not lapse — otherwise a note whose spend later expires is never
+    watched again."""
+    gu = [f for f in w.fns.values() if f.p == "zcash_client_sqlite::wallet::common::get_nullifiers"]
+    tu = [f for f in w.fns.values() if f.p == "zcash_client_sqlite::wallet::common::tx_unexpired_condition"]
+    if len(gu) != 1 or len(tu) != 1:
+        chk.fail("DEFSPENT", "missing", "get_nullifiers / tx_unexpired_condition not found")
+        return
+    src = zf.fn_source(extract.REPO, tu[0])
+    lits = sqlfx.string_literals(src)
+    perm = set()
+    for l in lits:
+        if "mined_height" in l:
+            for d in _disjuncts(l):
+                k = _atom_kind(d)
+                if k[0] in ("mined", "noexpiry"):
+                    perm.add(k)
+    texts = [t for _bb, _k, _t, t in fx.sites.get(gu[0].id, [])] or sqlfx.string_literals(zf.fn_source(extract.REPO, gu[0]))
+    preds = []
+    for t in texts:
+        for m in re.finditer(r"NOT IN\s*\(\s*SELECT.*?\bWHERE\b(.*?)\)\s*(\"|$|;)", t, re.S):
+            preds.append(m.group(1))
+    preds = sorted(set(re.sub(r"\s+", " ", re.sub(r"--[^\n]*", " ", x)) for x in preds))
+    if not perm or len(preds) != 1:
+        chk.fail("DEFSPENT", "anchors", "the spent sub-query of get_nullifiers(Unspent) or the permanent disjuncts of "
+                 "tx_unexpired_condition were not found (%d, %d)" % (len(preds), len(perm)), gu[0].span.loc())
+        return
+    bad = []
+    ds = _disjuncts(preds[0])
+    for d in ds:
+        k = _atom_kind(d)
+        if k not in perm:
+            bad.append(d)
+    if not bad and ds:
+        chk.ok("DEFSPENT", "get_nullifiers(Unspent) stops tracking a nullifier only for permanent spends: %s"
+               % " OR ".join(ds), sample=True)
+    else:
+        chk.fail("DEFSPENT", "get_nullifiers", "get_nullifiers(Unspent) also drops notes whose spend satisfies `%s`, which "
+                 "is not a permanent disjunct of tx_unexpired_condition (%s): the spend may lapse and the note is never "
+                 "watched again" % ("`, `".join(bad), sorted(perm)), gu[0].span.loc())
+
+
 def main(tier):
     chk = Check("C01", "other", tier)
     chk.explanation = (
@@ -243,6 +322,7 @@ def main(tier):
     chk.rule("PRUNE", "the nullifier map is pruned relative to the fully-scanned height", floor=2)
     chk.rule("RECV", "received notes are stored with the spent-before-received lookup", floor=2)
     chk.rule("UPSIB", "the pools' received-note upserts resolve conflicts alike", floor=6)
+    chk.rule("DEFSPENT", "nullifier tracking ends only for permanent spends", floor=1)
     chk.rule("control", "positive controls", floor=2)
 
     ps_rules.ps1(chk, FILES)
@@ -341,6 +421,7 @@ def main(tier):
     # ------------------------------------------------------------------ RECV (spent-before-received)
     recv_spent(chk, w)
     upsert_siblings(chk, w, fx)
+    definitely_spent(chk, w, fx)
 
     # ------------------------------------------------------------------ SPLICE
     need = {
